@@ -40,12 +40,14 @@ func (h *Session) Unmarshal(v base.HeaderValue) error {
 
 	v0 = strings.TrimLeft(v0, " ")
 
-	kvs, err := keyValParse(v0, ';')
+	kvs, err := keyValParseOrdered(v0, ';')
 	if err != nil {
 		return err
 	}
 
-	for k, v := range kvs {
+	for _, kv := range kvs {
+		k, v := kv.key, kv.value
+
 		if k == "timeout" {
 			var iv uint64
 			iv, err = strconv.ParseUint(v, 10, 32)
